@@ -11,13 +11,14 @@ PROP = {
             "b+[..], b[0:8], element of a nested copy, loops appending / assigning, write through a map element, write from a function) and 21 map operations (set by . and [], "
             "insert, del, +, rest, slices, nesting, calls, loops). Families: every history of <= 4 (thorough <= 5) core operations on a 9-element array and a 5-pair map "
             "(<= 3 / 4 on 8 elements / 4 pairs); every history of <= 2 operations of the full vocabulary on sizes {0,1,3,7,8,9,10,20} / {0,1,3,4,5,6,12}; b=a followed by every "
-            "history of <= 2 on the sizes around and above the thresholds; thorough: every history of <= 3 on sizes 8,9,10 / 4,5,6; map + with a history (every history of <= 4 operations from: grow by index assignment, shrink by del, a+{existing key}, a+{smaller and existing key}, a+{}, {}+a, a=a+{new key}, "
-            "writes and deletes through the result, on 5 pairs; shorter on 4 and 6); random histories of 10-30 operations with "
+            "history of <= 2 on the sizes around and above the thresholds; thorough: every history of <= 3 on sizes 8,9,10 / 4,5,6; map + with a history (every history of <= 4 operations from: grow by index assignment, shrink by del, a+{existing key}, a+{smaller and existing key}, a+{}, {}+a, "
+            "writes and deletes through the result, on 5 pairs; shorter on 4 and 6); rest()/slices of maps with a history (grow by two assignments, r=rest(a), r=a[1:6], insert at the front / in the middle of r, "
+            "delete, overwrite, write to a afterwards; a and r observed after every step); random histories of 10-30 operations with "
             "permuted bindings, literals of random size 0-20 / 0-12 rebound in the middle, growth (v=v+v) and shrinking (v=v[0:n]) across both thresholds. Statement: all four "
             "configurations observe exactly what the model observes. Statement on the model: same observations for thresholds (8,4), (0,0), (1000,1000) with the cache off. "
             "A difference counts as a listed class only if its first occurrence comes at or after an input in which the model executed an in-place-capable operation on a "
             "large container THROUGH A NAME THAT MAY SHARE STORAGE with another live name, decided by a syntactic may-alias analysis over the session's trees (plain copies, arguments, "
-            "containment, slices/rest, array +; literals, * and + with a map on the left are fresh): a write through a name owning fresh storage never explains a difference. non-trivial = at least one input parses; distinct = distinct case line.",
+            "containment, slices/rest of arrays, array +; literals, *, + with a map on the left and rest/slices of maps are fresh): a write through a name owning fresh storage never explains a difference. non-trivial = at least one input parses; distinct = distinct case line.",
     "trusted_base": EVAL_TB + ["the Go heap (sharing of BigArray slices / *BigMap pointers) is NOT modelled: the model is the value-semantic specification; the three open classes "
                                "are decided by the driver from what the MODEL executed (St.hazards), see lean/Grol/Eval/HazardSession.lean"],
     "assumptions": EVAL_ASSUME + ["C06.Statement is about the implementation and is false of the current code for large containers (3 open classes, witnesses replayed every run)"],
